@@ -21,6 +21,7 @@ TITLE = "parts of the same type are interchangeable"
 RULE = ("one scenario per (base assembly, position, replacement); non-trivial always (two assemblies compared); "
         "distinct by construction")
 ASSUMPTIONS = [
+    "the entity objects of the untouched modules and of the vector are re-used between the two assemblies that are compared (half of the base assemblies are stored with the origin inside the cassette)",
     "replacement modules are valid modules with the same two overhangs (typed by the implementation and cross-checked by string search)",
     "registry plasmids that do not carry exactly two cutter sites are skipped for the model-based part (counted as filtered)",
 ]
@@ -112,7 +113,14 @@ def unit_generated(st, enz, tier):
                 st.filtered += 1
                 continue
             vec, mods = asm.pieces_to_plasmids(base)
-            o1 = asm.run_assemble(V(gen.crec(vec, "v")), [M(gen.crec(m, "m%d" % i)) for i, m in enumerate(mods)])
+            if scheme == 1:
+                # stored with the origin inside the cassette (the match wraps around the end of the record)
+                mods = [rm.rot_right(m, len(m) - len(g.site) - g.off - 2) for m in mods]
+                vec = rm.rot_right(vec, 3)
+            # the SAME entity objects take part in the first assembly and in every assembly with one module replaced
+            vent = V(gen.crec(vec, "v"))
+            ments = [M(gen.crec(m, "m%d" % i)) for i, m in enumerate(mods)]
+            o1 = asm.run_assemble(vent, list(ments))
             if o1.kind != "product":
                 st.violation("generated", "base-assembly-fails", dict(family="generated", enz=enz, k=k, scheme=scheme), "product", o1.brief())
                 continue
@@ -129,9 +137,9 @@ def unit_generated(st, enz, tier):
                         st.filtered += 1
                         st.extra["replacement-not-typed-as-same-overhang-module"] += 1
                         continue
-                    ms = [M(gen.crec(m, "m%d" % i)) for i, m in enumerate(mods)]
+                    ms = list(ments)
                     ms[j] = re_
-                    o2 = asm.run_assemble(V(gen.crec(vec, "v")), ms)
+                    o2 = asm.run_assemble(vent, ms)
                     st.scenario("generated", None, calls=2)
                     st.nontrivial += 1
                     st.goal("generated-replacement")
